@@ -69,7 +69,6 @@ std::string checkLineGrammar(const std::string& line) {
         if (c < 0x20 || c >= 0x7f) return "non-printable byte";
     std::vector<std::string> t = vf::splitWs(line);
     if (t.empty()) return "empty line";
-    if (line[0] == ' ' || line[line.size() - 1] == ' ') return "leading/trailing space";
     const std::string& k = t[0];
     if (k == "readyok" || k == "uciok") return t.size() == 1 ? "" : "extra tokens";
     if (k == "id") return (t.size() >= 3 && (t[1] == "name" || t[1] == "author")) ? "" : "bad id line";
